@@ -763,4 +763,43 @@ example : ((run runStart (lateEvents ++ [.ack 0 1000] ++ [.adv 0])).2.filter fun
     [(some 8, 1), (some 9, 2)] := by decide
 
 
+
+/-- the fairness hypothesis discharged from the state BEFORE the I/O step: fewer than NSTART Confirmables of the session in flight
+    (every earlier one acknowledged or given up) and `o` the first stale entry of its session in walk order -/
+theorem fair_when_first_stale (st : State) (pre : List Res) (y : Res) (spre : List Sub) (o : Sub)
+    (hcon : (getSess st o.sess).conActive < obsNstart)
+    (hpre : ∀ y1 ∈ pre, y1.alive = true → ∀ o1 ∈ y1.subs, o1.sess = o.sess → y1.dirty = false ∧ o1.dirty = false)
+    (hspre : ∀ o1 ∈ spre, o1.sess = o.sess → y.dirty = false ∧ o1.dirty = false) :
+    backPressured (turnState st pre y spre) y o = false :=
+  first_stale_entry_not_backPressured st pre y spre o hcon hpre hspre
+
+/-- latest_eventually_notified, run level, fairness stated on the reachable state itself: after ANY run, for every session with
+    fewer than NSTART Confirmables in flight, the I/O step tells the first stale entry of that session (in walk order, alive
+    healthy resource) the resource's latest state.  (So with every Confirmable eventually acknowledged or given up, each
+    ACK + I/O round serves one more stale entry of the session until none is left; NON-eligible entries are served at once:
+    `fair_when_non`.) -/
+theorem latest_eventually_notified_first_stale (st0 : State) (evs : List Event) (ms : Nat) (hid : IdsNodup st0) (hw : Wake st0)
+    (pre post : List Res) (y : Res) (spre spost : List Sub) (o : Sub)
+    (hres : (run st0 evs).1.res = pre ++ y :: post) (hsubs : y.subs = spre ++ o :: spost)
+    (hal : y.alive = true) (herr : y.err = false) (hst : y.dirty = true ∨ o.dirty = true)
+    (hcon : (getSess (run st0 evs).1 o.sess).conActive < obsNstart)
+    (hpre : ∀ y1 ∈ pre, y1.alive = true → ∀ o1 ∈ y1.subs, o1.sess = o.sess → y1.dirty = false ∧ o1.dirty = false)
+    (hspre : ∀ o1 ∈ spre, o1.sess = o.sess → y.dirty = false ∧ o1.dirty = false) :
+    ∃ out ∈ (run st0 (evs ++ [.adv ms])).2, out.tag = .note ∧ out.c = o.sess ∧ out.token = o.token ∧ out.res = y.id ∧
+      out.code = 69 ∧ out.obs = some y.observe ∧ out.ver = y.ver :=
+  latest_eventually_notified_run st0 evs ms hid hw pre post y spre spost o hres hsubs hal herr hst
+    (first_stale_entry_not_backPressured _ pre y spre o (by rw [getSess_conActive_now]; exact hcon) hpre hspre)
+
+/-- witness: NOTIFY_CON resource 1 — the second change is deferred while the first Confirmable is in flight; once it is
+    acknowledged (here: by `handleAck` alone, before the I/O loop runs) the hypotheses of the theorem hold -/
+def ackedSt : State := handleAck (run runStart lateEvents).1 0 2
+def ackedY : Res := ackedSt.res.getD 1 (mkRes 9 false false 0)
+def ackedO : Sub := ackedY.subs.getD 0 { sess := 9, token := 9, key := 9, nonCnt := 0, failCnt := 0, dirty := false, mid := 0, lastVer := none }
+example : (getSess (run runStart lateEvents).1 0).conActive = 1 ∧ (getSess ackedSt 0).conActive = 0 := by decide
+example : ackedSt.res = [ackedSt.res.getD 0 (mkRes 9 false false 0)] ++ ackedY :: [] ∧ ackedY.subs = [] ++ ackedO :: [] ∧
+    ackedY.alive = true ∧ ackedY.err = false ∧ ackedO.dirty = true ∧ ackedY.fCon = true ∧
+    (getSess ackedSt ackedO.sess).conActive < obsNstart ∧
+    (∀ o1 ∈ (ackedSt.res.getD 0 (mkRes 9 false false 0)).subs, o1.sess ≠ ackedO.sess) := by decide
+
+
 end Coap.C11
